@@ -51,6 +51,9 @@ def uref(members, prefix="U"):
 _cache = {}
 
 
+DEFAULTS = {}  # (struct name, field name) -> declared default of a scalar field
+
+
 def build(ast):
     """AST -> real xobjects class (memoised per AST node identity by value)"""
     key = ast
@@ -62,7 +65,7 @@ def build(ast):
     elif k == "string":
         cls = xo.String
     elif k == "struct":
-        data = {fn: build(ft) for fn, ft in ast[2]}
+        data = {fn: (xo.Field(build(ft), default=DEFAULTS[(ast[1], fn)]) if (ast[1], fn) in DEFAULTS else build(ft)) for fn, ft in ast[2]}
         cls = type(ast[1], (xo.Struct,), data)
     elif k == "array":
         _, item, shape, order = ast
@@ -217,6 +220,11 @@ def catalogue(tier="quick", seed=0):
     hold = struct([("r", ref(sta_struct()))], "H")
     cat.append(array(hold, (2,)))
     cat.append(struct([("h", array(hold, (None,))), ("q", I8)], "R"))
+    # declared (non-zero) defaults of scalar fields next to dynamic fields
+    dd = struct([("x", F64), ("n", I64), ("s", STR), ("a", array(F64, (None,))), ("k", I8)], "D")
+    DEFAULTS[(dd[1], "x")] = 1.5
+    DEFAULTS[(dd[1], "n")] = 5
+    cat.append(dd)
     out = [(describe(a), a) for a in cat]
     if tier == "thorough":
         rng = random.Random(seed)
